@@ -54,6 +54,9 @@ def instances(tier):
             out.append(dict(id="seq-%s-euler-nodense-evcall%d" % ("-".join(sq), evcall), ops=list(sq), family="euler", N=2, dense=False, evcall=evcall, budget=b))
     for sq in (("I",), ("I", "R"), ("IT", "R"), ("F", "R")):
         out.append(dict(id="seq-%s-backward_euler" % "-".join(sq), ops=list(sq), family="backward_euler", N=2, budget=dict(b, wall_s=70)))
+    # history of ANOTHER system: a system built without constants gets an entry written into its (own) constants dict; systems built
+    # afterwards, again without constants, start with no constants and their rhs is called without that parameter
+    out.append(dict(id="other-system-constants-written-euler", ops=["XCONST"], family="euler", N=2, budget=b))
     out.append(dict(id="split-euler", ops=["SPLIT"], family="euler", N=3, budget=b))
     out.append(dict(id="split-sympl_euler", ops=["SPLIT"], family="sympl_euler", N=3, budget=b))
     out.append(dict(id="split-rk4", ops=["SPLIT"], family="rk4", N=2, budget=b))
@@ -133,6 +136,30 @@ def _scenario(c, inst):
     cap = 8
     settings = dict(method=method, rtol=None, atol=None, kv=None)
     ops = inst["ops"]
+    if ops == ["XCONST"]:
+        seen_kw = []
+        base0 = FreshRhs(c, shape, name="f", mode="uf")
+
+        def rhs0(t, y, **kw):
+            seen_kw.append(dict(kw))
+            return base0(t, y)
+        st, first = run(lambda: de.OdeSystem(rhs0, y0=y0, t=(t0, tf), dt=dt0))
+        if st != "ok":
+            c.check("c13.constructs", False, info=repr(first))
+            return
+        first.constants["k"] = consts["k"]
+        del seen_kw[:]
+        st, second = run(lambda: de.OdeSystem(rhs0, y0=y0, t=(t0, tf), dt=dt0))
+        if st != "ok":
+            c.check("c13.constructs", False, info=repr(second))
+            return
+        second.method = method
+        c.case()
+        c.check("c13.system_built_without_constants_has_none", len(second.constants) == 0, info=dict(keys=sorted(second.constants)))
+        st, r = run(second.integrate, callback=[spans.cap_callback(c, cap, kind)])
+        c.check("c13.rhs_of_a_system_without_constants_is_called_without_parameters", st == "ok" and all(len(k) == 0 for k in seen_kw),
+                info=dict(st=st, seen=[sorted(k) for k in seen_kw[:3]]))
+        return
     if ops == ["SPLIT"]:
         _split(c, inst, a, construct, mk_rhs, t0, tf, adt, kind)
         return
@@ -222,6 +249,14 @@ def _scenario(c, inst):
         st, r = run(a.integrate)
         after = _snapshot(c, a, rhs)
         c.check("c13.integrate_at_target_changes_nothing", st == "ok" and _same_snapshot(c, before, after), info=dict(ops=ops))
+        # the same for a target that differs from the current time by less than the library's own arrival tolerance (32*eps: the
+        # distance at which integrate() considers a target reached): e.g. the same target recomputed with another rounding
+        delta = c.real("delta_target")
+        c.assume(absval(c, delta) < 32 * spans.EPS64)
+        before = _snapshot(c, a, rhs)
+        st, r = run(a.integrate, a.t[-1] + delta)
+        after = _snapshot(c, a, rhs)
+        c.check("c13.integrate_within_arrival_tolerance_of_target_changes_nothing", st == "ok" and _same_snapshot(c, before, after), info=dict(ops=ops))
     # (c) caller's objects untouched
     c.check("c13.caller_y0_unmodified", all(u is v for u, v in zip(flat(c, y0), y0_copy)) if c.symbolic else bool(np.all(np.asarray(y0).reshape(-1) == np.asarray(y0_copy))))
     c.check("c13.caller_constants_unmodified", set(consts) == set(consts_copy) and all(consts[k] is consts_copy[k] for k in consts))
